@@ -12,6 +12,104 @@ assignments persist (`MJ.Eval.renderAfter`, `MJ.Vm.renderCodeAfter`).
   records otherwise.
 * `vm_refines_eval_discard`: the refinement theorem for this entry form.
 -/
+namespace MJ.Compile
+open MJ.Eval
+
+/-! at template level (`P = none`) the set of certainly-bound names plays no role -/
+mutual
+theorem wfExpr_none (M : List String) (A B : List String) : ∀ (e : Expr), wfExpr M none A e = wfExpr M none B e
+  | .const _ => rfl
+  | .var _ => rfl
+  | .unop _ e => by simp only [wfExpr]; exact wfExpr_none M A B e
+  | .binop _ l r => by simp only [wfExpr]; rw [wfExpr_none M A B l, wfExpr_none M A B r]
+  | .cmp e ops => by simp only [wfExpr]; rw [wfExpr_none M A B e, wfChain_none M A B ops]
+  | .ife c t none => by simp only [wfExpr]; rw [wfExpr_none M A B c, wfExpr_none M A B t]
+  | .ife c t (some f) => by simp only [wfExpr]; rw [wfExpr_none M A B c, wfExpr_none M A B t, wfExpr_none M A B f]
+  | .filter _ e args => by simp only [wfExpr]; rw [wfExpr_none M A B e, wfArgs_none M A B args]
+  | .test _ e args => by
+    simp only [wfExpr]; rw [wfExpr_none M A B e, wfArgs_none M A B args]
+    cases e <;> rfl
+  | .getattr e _ => by simp only [wfExpr]; exact wfExpr_none M A B e
+  | .getitem e i => by simp only [wfExpr]; rw [wfExpr_none M A B e, wfExpr_none M A B i]
+  | .call f args => by
+    cases f with
+    | var x => simp only [wfExpr, allowed]; rw [wfCallArgs_none M A B args]
+    | _ => rfl
+  | .list items => by simp only [wfExpr]; exact wfList_none M A B items
+  | .map kvs => by simp only [wfExpr]; exact wfPairs_none M A B kvs
+theorem wfChain_none (M : List String) (A B : List String) : ∀ (ops : List (CmpOp × Expr)), wfChain M none A ops = wfChain M none B ops
+  | [] => rfl
+  | (_, e) :: rest => by simp only [wfChain]; rw [wfExpr_none M A B e, wfChain_none M A B rest]
+theorem wfArgs_none (M : List String) (A B : List String) : ∀ (args : List (Option String × Expr)), wfArgs M none A args = wfArgs M none B args
+  | [] => rfl
+  | (none, e) :: rest => by simp only [wfArgs]; rw [wfExpr_none M A B e, wfArgs_none M A B rest]
+  | (some _, _) :: _ => rfl
+theorem wfCallArgs_none (M : List String) (A B : List String) : ∀ (args : List (Option String × Expr)), wfCallArgs M none A args = wfCallArgs M none B args
+  | [] => rfl
+  | (_, e) :: rest => by simp only [wfCallArgs]; rw [wfExpr_none M A B e, wfCallArgs_none M A B rest]
+theorem wfList_none (M : List String) (A B : List String) : ∀ (es : List Expr), wfList M none A es = wfList M none B es
+  | [] => rfl
+  | e :: rest => by simp only [wfList]; rw [wfExpr_none M A B e, wfList_none M A B rest]
+theorem wfPairs_none (M : List String) (A B : List String) : ∀ (kvs : List (Expr × Expr)), wfPairs M none A kvs = wfPairs M none B kvs
+  | [] => rfl
+  | (k, v) :: rest => by simp only [wfPairs]; rw [wfExpr_none M A B k, wfExpr_none M A B v, wfPairs_none M A B rest]
+end
+
+theorem wfBinds_none (M : List String) : ∀ (A B : List String) (bs : List (Target × Expr)), wfBinds M none A bs = wfBinds M none B bs
+  | _, _, [] => rfl
+  | A, B, (t, e) :: rest => by
+    simp only [wfBinds]; rw [wfExpr_none M A B e, wfBinds_none M (A ++ targetNames t) (B ++ targetNames t) rest]
+
+theorem wfFilters_none (M : List String) (A B : List String) : ∀ (fs : List FilterApp), wfFilters M none A fs = wfFilters M none B fs
+  | [] => rfl
+  | (_, args) :: rest => by simp only [wfFilters]; rw [wfArgs_none M A B args, wfFilters_none M A B rest]
+
+mutual
+theorem wfStmt_none (M : List String) : ∀ (A B : List String) (l : Bool) (st : Stmt), wfStmt M none A l st = wfStmt M none B l st
+  | _, _, _, .text _ => rfl
+  | A, B, _, .emit e => by simp only [wfStmt]; exact wfExpr_none M A B e
+  | A, B, _, .set _ e => by simp only [wfStmt]; rw [wfExpr_none M A B e]
+  | A, B, l, .ifS c t f => by
+    simp only [wfStmt]; rw [wfExpr_none M A B c, wfBlock_none M A B l t, wfBlock_none M A B l f]
+  | A, B, l, .withS binds body => by
+    simp only [wfStmt]; rw [wfBinds_none M A B binds, wfBlock_none M (A ++ bindsNames binds) (B ++ bindsNames binds) l body]
+  | A, B, l, .forS t iter flt body els => by
+    simp only [wfStmt]
+    rw [wfExpr_none M A B iter, wfBlock_none M (A ++ targetNames t ++ ["loop"]) (B ++ targetNames t ++ ["loop"]) true body,
+      wfBlock_none M A B l els]
+    cases flt with
+    | none => rfl
+    | some c => simp only; rw [wfExpr_none M (A ++ targetNames t) (B ++ targetNames t) c]
+  | A, B, l, .setBlock _ fs body => by simp only [wfStmt]; rw [wfFilters_none M A B fs, wfBlock_none M A B l body]
+  | A, B, l, .filterBlock fs body => by simp only [wfStmt]; rw [wfFilters_none M A B fs, wfBlock_none M A B l body]
+  | A, B, _, .macroS _ _ _ _ _ => by
+    simp only [wfStmt]
+    have : allowed none A = allowed none B := rfl
+    rw [this]
+  | A, B, _, .callBlock callee args params defaults body uc => by
+    cases callee with
+    | var x =>
+      simp only [wfStmt]
+      have : allowed none A = allowed none B := rfl
+      rw [this, wfCallArgs_none M A B args]
+    | _ => rfl
+  | _, _, _, .breakS => rfl
+  | _, _, _, .continueS => rfl
+theorem wfBlock_none (M : List String) : ∀ (A B : List String) (l : Bool) (ss : List Stmt), wfBlock M none A l ss = wfBlock M none B l ss
+  | _, _, _, [] => rfl
+  | A, B, l, s :: rest => by
+    simp only [wfBlock]; rw [wfStmt_none M A B l s, wfBlock_none M (A ++ assignedBy s) (B ++ assignedBy s) l rest]
+end
+
+theorem wfBlock_append (M : List String) (l : Bool) : ∀ (A : List String) (a b : List Stmt),
+    wfBlock M none A l (a ++ b) = (wfBlock M none A l a && wfBlock M none A l b)
+  | _, [], _ => by simp [wfBlock]
+  | A, s :: rest, b => by
+    simp only [List.cons_append, wfBlock]
+    rw [wfBlock_append M l _ rest b, wfBlock_none M (A ++ assignedBy s) A l b, Bool.and_assoc]
+
+end MJ.Compile
+
 namespace MJ.Vm
 open MJ.Eval MJ.Compile MJ.C03
 
@@ -65,10 +163,25 @@ theorem eraseOuts_appendOut (t : String) : ∀ (l : List String),
     simp only [appendOut]
     rw [eraseOuts_cons _ _ (eraseOuts_ne_nil (by simp)), eraseOuts_cons _ (r :: rest) (by simp), eraseOuts_idem]
 
+theorem encloseStep_outs (ctx : Scope) (x : String) (s : VmState) (o : List String) :
+    encloseStep ctx x { s with outs := o } = (encloseStep ctx x s).map fun t => { t with outs := o } := by
+  unfold encloseStep
+  cases s.frames with
+  | nil => rfl
+  | cons f rest =>
+    simp only
+    split
+    · rfl
+    · split <;> rfl
+
 /-- instructions other than the output instructions do not look at the output -/
 theorem step_outs (ctx : Scope) (i : Instr) (s : VmState) (o : List String)
     (h1 : i ≠ .emit) (h2 : ∀ t, i ≠ .emitRaw t) (h3 : i ≠ .beginCapture) (h4 : i ≠ .endCapture) :
     step ctx i { s with outs := o } = (step ctx i s).map fun t => { t with outs := o } := by
+  by_cases he : ∃ x, i = .enclose x
+  · obtain ⟨x, rfl⟩ := he
+    simp only [step]
+    exact encloseStep_outs ctx x s o
   cases i <;> simp_all [step, Except.map, binArith, binCmp]
   all_goals (repeat' (first | rfl | split)) <;> simp_all
 
@@ -132,10 +245,58 @@ theorem step_erase (ctx : Scope) (i : Instr) (s s' : VmState) (h : step ctx i s 
 theorem eraseBottom_idem (s : VmState) : eraseBottom (eraseBottom s) = eraseBottom s := by
   simp [eraseBottom_eq, eraseOuts_idem]
 
-/-- a run with a discarding output follows the ordinary run -/
-theorem runD_erase_congr (ctx : Scope) (C : List Instr) : ∀ (k : Nat) (s t : VmState),
-    eraseBottom s = eraseBottom t → runD ctx C k (eraseBottom s) = runD ctx C k (eraseBottom t) := by
-  intro k s t h; rw [h]
+/-- one step, calls included, with the bottom entry of the output erased -/
+theorem stepF_erase (ctx : Scope) (C : List Instr) (f : Nat) (i : Instr) (s s' : VmState)
+    (h : stepF ctx C f i s = .ok s') :
+    ∃ t, stepF ctx C f i (eraseBottom s) = .ok t ∧ eraseBottom t = eraseBottom s' := by
+  cases f with
+  | zero => simp [stepF] at h
+  | succ f =>
+    by_cases hc : ∃ name argc, i = .callFunction name argc
+    · obtain ⟨name, argc, rfl⟩ := hc
+      simp only [stepF] at h ⊢
+      have e1 : (eraseBottom s).stack = s.stack := rfl
+      have e2 : (eraseBottom s).closures = s.closures := rfl
+      have e3 : (eraseBottom s).frames = s.frames := rfl
+      rw [e1, e2, e3]
+      cases hp : popN argc s.stack with
+      | none => rw [hp] at h; simp at h
+      | some pr =>
+        obtain ⟨args, rest⟩ := pr
+        rw [hp] at h
+        simp only at h ⊢
+        cases hcall : callF ctx C f (lookupFrames ctx s.closures name s.frames) args s.closures with
+        | error e => rw [hcall] at h; simp at h
+        | ok r =>
+          rw [hcall] at h
+          simp only [Except.ok.injEq] at h
+          subst h
+          exact ⟨_, rfl, by simp [eraseBottom_eq, eraseOuts_idem]⟩
+    · have hs : stepF ctx C (f + 1) i s = step ctx i s := by
+        cases i <;> first | rfl | exact absurd ⟨_, _, rfl⟩ hc
+      have hs' : stepF ctx C (f + 1) i (eraseBottom s) = step ctx i (eraseBottom s) := by
+        cases i <;> first | rfl | exact absurd ⟨_, _, rfl⟩ hc
+      rw [hs] at h; rw [hs']
+      exact step_erase ctx i s s' h
+
+theorem run_erase_aux {ctx : Scope} {C : List Instr} {k : Nat} {i : Instr} {s s' : VmState}
+    (ih : ∀ s1, run ctx C k s1 = .ok s' → runD ctx C k (eraseBottom s1) = .ok (eraseBottom s'))
+    (h : (match stepF ctx C k i s with
+      | .ok s1 => run ctx C k s1
+      | .error e => .error e) = .ok s') :
+    (match stepF ctx C k i (eraseBottom s) with
+      | .ok s1 => runD ctx C k (eraseBottom s1)
+      | .error e => .error e) = .ok (eraseBottom s') := by
+  cases hs : stepF ctx C k i s with
+  | error e => rw [hs] at h; simp at h
+  | ok s1 =>
+    rw [hs] at h
+    simp only at h
+    obtain ⟨t, ht, hte⟩ := stepF_erase ctx C k i s s1 hs
+    rw [ht]
+    simp only
+    rw [hte]
+    exact ih s1 h
 
 theorem run_erase (ctx : Scope) (C : List Instr) : ∀ (k : Nat) (s s' : VmState),
     run ctx C k s = .ok s' → runD ctx C k (eraseBottom s) = .ok (eraseBottom s')
@@ -149,17 +310,9 @@ theorem run_erase (ctx : Scope) (C : List Instr) : ∀ (k : Nat) (s s' : VmState
     | none => rw [hi] at h; simp at h; subst h; rfl
     | some i =>
       rw [hi] at h
-      simp only at h ⊢
-      cases hs : step ctx i s with
-      | error e => rw [hs] at h; simp at h
-      | ok s1 =>
-        rw [hs] at h
-        simp only at h
-        obtain ⟨t, ht, hte⟩ := step_erase ctx i s s1 hs
-        rw [ht]
-        simp only
-        rw [hte]
-        exact run_erase ctx C k s1 s' h
+      by_cases hr : i = .return_
+      · subst hr; simp at h; subst h; rfl
+      · cases i <;> first | exact absurd rfl hr | exact run_erase_aux (fun s1 h1 => run_erase ctx C k s1 s' h1) h
 
 theorem relBlock_append : ∀ (a b : List Stmt) (base : Nat) (aux : Aux) (lc : Option LoopCtx),
     relBlock (a ++ b) base aux lc =
@@ -174,39 +327,95 @@ theorem relBlock_append : ∀ (a b : List Stmt) (base : Nat) (aux : Aux) (lc : O
     rw [relBlock_append rest b]
     simp [Nat.add_assoc]
 
-theorem simpleBlock_append (l : Bool) : ∀ (a b : List Stmt),
-    simpleBlock l (a ++ b) = (simpleBlock l a && simpleBlock l b)
-  | [], b => by simp [simpleBlock]
-  | s :: rest, b => by simp [simpleBlock, simpleBlock_append l rest b, Bool.and_assoc]
+
+/-! the relation under a change of the code to one that has the same macro bodies where they were -/
+section recode
+variable {K K' : Cfg} (hctx : K'.ctx = K.ctx) (hM : K'.M = K.M) (hC : ∀ off L, At K.C off L → At K'.C off L)
+include hctx hM hC
+
+theorem MacroRel.recode {G cls hl u w} (h : MacroRel K G cls hl u w) : MacroRel K' G cls hl u w := by
+  cases w <;> try trivial
+  rename_i name params defaults body uc env
+  obtain ⟨off, clo, hu, ⟨a, hat, hoof⟩, hwf, hb, hg, hfv⟩ := h
+  exact ⟨off, clo, hu, ⟨a, hC _ _ hat, hoof⟩, by rw [hM]; exact hwf, hb, hg, hfv⟩
+
+theorem ValAgree.recode {G cls hl x w u} (h : ValAgree K G cls hl x w u) : ValAgree K' G cls hl x w u := by
+  unfold ValAgree at h ⊢
+  rw [hM]
+  split
+  · rename_i hm; rw [if_pos hm] at h; exact h.recode hctx hM hC
+  · rename_i hm; rw [if_neg hm] at h; exact h
+
+theorem OptAgree.recode {G cls hl x e v} (h : OptAgree K G cls hl x e v) : OptAgree K' G cls hl x e v := by
+  unfold OptAgree at h ⊢
+  rw [hM]
+  split
+  · rename_i hm; rw [if_pos hm] at h
+    exact ⟨h.1, fun w u hw hu => (h.2 w u hw hu).recode hctx hM hC⟩
+  · rename_i hm; rw [if_neg hm] at h; exact h
+
+theorem FramesRel.recode {G cls heap clo} : ∀ {loc : List Nat} {locF : List Frame},
+    FramesRel K G cls heap clo loc locF → FramesRel K' G cls heap clo loc locF
+  | [], [], _ => trivial
+  | [], _ :: _, h => by simp [FramesRel] at h
+  | _ :: _, [], h => by simp [FramesRel] at h
+  | id :: ids, f :: fs, h => by
+    obtain ⟨⟨cell, hc, hag⟩, hcc, hrest⟩ := h
+    exact ⟨⟨cell, hc, fun x => (hag x).recode hctx hM hC⟩, hcc, FramesRel.recode hrest⟩
+
+theorem HRel.recode {G P clo heap loc env s} (h : HRel K G P clo heap loc env s) : HRel K' G P clo heap loc env s := by
+  obtain ⟨locF, tailF, hfr, hrel, htl, ho1, ho2⟩ := h.frames
+  refine ⟨⟨locF, tailF, hfr, hrel.recode hctx hM hC, htl, ho1, ho2⟩, ?_, ?_, h.genv, h.bound, h.nodup, h.below, h.cloG, by rw [hctx, hM]; exact h.plain⟩
+  · intro x hx; rw [hctx]; exact (h.tail x hx).recode hctx hM hC
+  · intro c env' hg
+    obtain ⟨m, hm, hag⟩ := h.closOK c env' hg
+    exact ⟨m, hm, fun x u hx => by rw [hctx]; exact (hag x u hx).recode hctx hM hC⟩
+
+end recode
 
 /-- the generator on a whole template of the fragment -/
-theorem cBlock_top (prog : List Stmt) (h : simpleBlock false prog = true) :
+theorem cBlock_top (prog : List Stmt) (h : coreBlock false prog = true) :
     cBlock prog {} = ({} : CG).extend (relBlock prog 0 {} none).1 := by
-  have h' := cBlock_eq_rel prog {} none h trivial
+  have h' := cBlock_eq_core prog {} none h trivial
   rw [h', CG.withBreaks_eq]
   simp [foldl_addBreakJump_nil, CG.extend, CG.next, setExit]
 
-theorem compileTemplate_top (prog : List Stmt) (h : simpleBlock false prog = true) :
+theorem compileTemplate_top (prog : List Stmt) (h : coreBlock false prog = true) :
     compileTemplate prog =
       if (relBlock prog 0 {} none).1.2.oof then none else some (relBlock prog 0 {} none).1.1 := by
   simp only [compileTemplate]
   rw [cBlock_top prog h]
   simp [CG.oof, CG.extend]
 
+theorem At.prefix {C rest : List Instr} {off : Nat} {L : List Instr} (h : At C off L) : At (C ++ rest) off L := by
+  intro k hk
+  have h1 := h k hk
+  have hlt : off + k < C.length := by
+    cases hd : decide (off + k < C.length) with
+    | true => exact of_decide_eq_true hd
+    | false =>
+      have : C.length ≤ off + k := Nat.le_of_not_lt (of_decide_eq_false hd)
+      rw [List.getElem?_eq_none this, List.getElem?_eq_getElem hk] at h1; cases h1
+  rw [List.getElem?_append_left hlt]; exact h1
+
 /-- **`vm_refines_eval_discard`**: the refinement theorem for a program whose output is discarded
-while its assignments persist (top level of a child template, imported module) followed by the
-template that reads them (`MJ.Eval.renderAfter`): the model VM runs the first `codeP.length`
-instructions with a discarding output — captures begun meanwhile still capture — and the rest with a
-fresh output, and renders what the reference semantics renders. -/
-theorem vm_refines_eval_discard (prog tail : List Stmt) (hfrag : Fragment (prog ++ tail)) (ctx : Scope)
+while its assignments — and the macros it declares — persist (top level of a child template, imported
+module) followed by the template that reads them (`MJ.Eval.renderAfter`): the model VM runs the first
+`codeP.length` instructions with a discarding output — captures begun meanwhile still capture — and
+the rest with a fresh output, and renders what the reference semantics renders. -/
+theorem vm_refines_eval_discard (prog tail : List Stmt) (hfrag : CoreFragment (prog ++ tail)) (ctx : Scope)
+    (hctx : CtxPlain ctx)
     (code : List Instr) (hcode : compileTemplate (prog ++ tail) = some code) (fuel : Nat) (out : String)
     (hev : renderAfter fuel ctx prog tail = .ok out) :
     ∃ codeP, compileTemplate prog = some codeP ∧
       ∃ k, ∀ j, renderCodeAfter (k + j) ctx code codeP.length = .ok out := by
-  have hf : simpleBlock false prog = true ∧ simpleBlock false tail = true := by
-    have := hfrag; simp only [Fragment, simpleBlock_append, Bool.and_eq_true] at this; exact this
+  have hwf : wfBlock (macroNames (prog ++ tail)) none [] false prog = true ∧
+      wfBlock (macroNames (prog ++ tail)) none [] false tail = true := by
+    have := hfrag; simp only [CoreFragment, wfBlock_append, Bool.and_eq_true] at this; exact this
+  have hcoreW : coreBlock false (prog ++ tail) = true := wf_coreBlock _ _ _ _ _ hfrag
+  have hcoreP : coreBlock false prog = true := wf_coreBlock _ _ _ _ _ hwf.1
   -- the code of the whole and of the first part
-  rw [compileTemplate_top _ hfrag] at hcode
+  rw [compileTemplate_top _ hcoreW] at hcode
   split at hcode
   · simp at hcode
   · rename_i hoofW
@@ -219,7 +428,7 @@ theorem vm_refines_eval_discard (prog tail : List Stmt) (hfrag : Fragment (prog 
       cases ho : (relBlock prog 0 {} none).1.2.oof with
       | false => rfl
       | true => rw [relBlock_oof_mono tail _ _ none ho] at hoofT; cases hoofT
-    refine ⟨(relBlock prog 0 {} none).1.1, by rw [compileTemplate_top _ hf.1]; simp [hoofP], ?_⟩
+    refine ⟨(relBlock prog 0 {} none).1.1, by rw [compileTemplate_top _ hcoreP]; simp [hoofP], ?_⟩
     -- the reference run
     simp only [renderAfter] at hev
     split at hev
@@ -227,13 +436,15 @@ theorem vm_refines_eval_discard (prog tail : List Stmt) (hfrag : Fragment (prog 
       split at hev
       · rename_i σ2 fl2 hexec2
         simp at hev; subst hev
+        let K1 : Cfg := { ctx := ctx, M := macroNames (prog ++ tail), C := (relBlock prog 0 {} none).1.1 }
+        let K2 : Cfg := { ctx := ctx, M := macroNames (prog ++ tail), C := code }
+        let X1 : SC := { K := K1, P := none, clo := none, env := [] }
+        let X2 : SC := { K := K2, P := none, clo := none, env := [] }
         -- phase 1: the first part, on its own code
-        have hAt1 : At (relBlock prog 0 {} none).1.1 0 (relBlock prog 0 {} none).1.1 := by intro k _; simp
-        have hrel0 : Rel { heap := [[]], out := "" } [0] ({} : VmState) := by
-          refine ⟨?_, ⟨[], rfl⟩, by simp, by simp, ⟨0, [], rfl⟩⟩
-          exact ⟨⟨[], by simp, by intro x; simp [assocGet, frameLookup]⟩, trivial⟩
-        have p1 := (sim_stmt_all fuel).2.1 prog ctx [0] _ σ1 fl1 hexec1 none hf.1 _ 0 {} {} hAt1 hoofP rfl hrel0
-          (by intro l hl; cases hl)
+        have hAt1 : At K1.C 0 (relBlock prog 0 {} none).1.1 := by intro k _; simp [K1]
+        have hrel0 : Rel K1 (fun _ => none) none none { heap := [[]], out := "" } [0] [] ({} : VmState) := rel_init K1 hctx
+        have p1 := (all_sim fuel fuel (Nat.le_refl _)).2.2.2.1 X1 prog (fun _ => none) _ [0] σ1 fl1 hexec1 [] none hwf.1
+          (by intro x hx; simp at hx) (by simp) 0 {} {} hAt1 hoofP rfl hrel0 (by intro l hl; cases hl)
         have hfl1 : fl1 = .normal := by
           cases fl1 with
           | normal => rfl
@@ -241,20 +452,27 @@ theorem vm_refines_eval_discard (prog tail : List Stmt) (hfrag : Fragment (prog 
           | cont => simp [Post] at p1
         subst hfl1
         simp only [Post, if_true] at p1
-        obtain ⟨s1, hreach1, hpc1, hst1, hrel1, hout1, htl1, hhd1⟩ := p1
-        have hend1 : (relBlock prog 0 {} none).1.1[s1.pc]? = none := by rw [hpc1]; simp
+        obtain ⟨s1, G1, hreach1, hpc1, hst1, hrel1, hout1, htl1, hhd1, _, _⟩ := p1
+        have hend1 : Halted (relBlock prog 0 {} none).1.1 s1 := by left; rw [hpc1]; simp
         obtain ⟨k1, hk1⟩ := hreach1.toRun hend1
         -- phase 2: the tail, in the frames the first part left, with a fresh output
         let s1' : VmState := { eraseBottom s1 with pc := (relBlock prog 0 {} none).1.1.length, stack := [], outs := [""] }
-        have hrel1' : Rel { σ1 with out := "" } [0] s1' :=
-          ⟨hrel1.frames, ⟨[], rfl⟩, hrel1.bound, hrel1.nodup, hrel1.nonempty⟩
-        have hAt2 : At code (relBlock prog 0 {} none).1.1.length
+        have hcodeApp : code = (relBlock prog 0 {} none).1.1 ++
+            (relBlock tail (0 + (relBlock prog 0 {} none).1.1.length) (relBlock prog 0 {} none).1.2 none).1.1 := hcode.symm
+        have hrel1' : Rel K2 G1 none none { σ1 with out := "" } [0] [] s1' := by
+          refine ⟨(HRel.recode (K := K1) (K' := K2) rfl rfl ?_ hrel1.1).same s1' rfl rfl, ⟨[], rfl⟩⟩
+          intro off L hat
+          show At code off L
+          rw [hcodeApp]; exact At.prefix hat
+        have hAt2 : At K2.C (relBlock prog 0 {} none).1.1.length
             (relBlock tail (0 + (relBlock prog 0 {} none).1.1.length) (relBlock prog 0 {} none).1.2 none).1.1 := by
-          rw [← hcode]
+          show At code _ _
+          rw [hcodeApp]
           have := At.of_append (relBlock prog 0 {} none).1.1
             (relBlock tail (0 + (relBlock prog 0 {} none).1.1.length) (relBlock prog 0 {} none).1.2 none).1.1 []
           simpa using this
-        have p2 := (sim_stmt_all fuel).2.1 tail ctx [0] _ σ2 fl2 hexec2 none hf.2 code
+        have p2 := (all_sim fuel fuel (Nat.le_refl _)).2.2.2.1 X2 tail G1 _ [0] σ2 fl2 hexec2 [] none hwf.2
+          (by intro x hx; simp at hx) (by simp)
           (0 + (relBlock prog 0 {} none).1.1.length) (relBlock prog 0 {} none).1.2 s1'
           (by simpa using hAt2) hoofT (by simp [s1']) hrel1' (by intro l hl; cases hl)
         have hfl2 : fl2 = .normal := by
@@ -264,9 +482,9 @@ theorem vm_refines_eval_discard (prog tail : List Stmt) (hfrag : Fragment (prog 
           | cont => simp [Post] at p2
         subst hfl2
         simp only [Post, if_true] at p2
-        obtain ⟨s2, hreach2, hpc2, hst2, hrel2, hout2, htl2, hhd2⟩ := p2
-        have hend2 : code[s2.pc]? = none := by
-          rw [hpc2, ← hcode]; simp
+        obtain ⟨s2, G2, hreach2, hpc2, hst2, hrel2, hout2, htl2, hhd2, _, _⟩ := p2
+        have hend2 : Halted code s2 := by
+          left; rw [hpc2, hcodeApp]; simp
         obtain ⟨k2, hk2⟩ := hreach2.toRun hend2
         refine ⟨k1 + k2, fun j => ?_⟩
         have e1 : k1 + k2 + j = k1 + (k2 + j) := by omega
@@ -275,15 +493,15 @@ theorem vm_refines_eval_discard (prog tail : List Stmt) (hfrag : Fragment (prog 
         have hE : eraseBottom ({} : VmState) = {} := rfl
         rw [hE] at hD
         have htake : code.take (relBlock prog 0 {} none).1.1.length = (relBlock prog 0 {} none).1.1 := by
-          rw [← hcode]; simp
+          rw [hcodeApp]; simp
         simp only [renderCodeAfter, htake]
         rw [e1, hD]
         simp only
         rw [← e1, e2]
-        have hk2' := hk2 (k1 + j)
+        have hk2' : run ctx code (k2 + (k1 + j)) s1' = .ok s2 := hk2 (k1 + j)
         simp only [s1'] at hk2'
         rw [hk2']
-        obtain ⟨rest, hr⟩ := hrel2.out
+        obtain ⟨rest, hr⟩ := hrel2.2
         have : rest = [] := by
           have := hout2; rw [hr] at this; simpa [s1'] using this
         subst this
